@@ -60,13 +60,14 @@ def run(ctx):
   rule_ladder(ctx)
   rule_template(ctx)
   rule_universal(ctx)
+  rule_excursion_gate(ctx)
   ctx.expect("R-C12-UNIVERSAL", 2, "statistic + p-value")
   ctx.expect("R-C12-TEMPLATE", 3, "border test, default set, validation")
   ctx.expect("R-C12-LADDER", 3, "loop condition, guard agreement, matrix shape")
   ctx.expect("R-C12-PURE", 56, "every function of the five modules behind the statistical tests")
   ctx.expect("R-C12-FORMULA", 17, "statistic formulas of ten tests, compared at their sinks")
   ctx.expect("R-C12-TABLES", 60, "17 longest-run + 6 + 33 rank + universal + 11 min_n + 14 linear complexity + 3 excursions")
-  ctx.expect("R-C12-MINSIZE", 9, "nine InsufficientDataError guards")
+  ctx.expect("R-C12-MINSIZE", 10, "nine InsufficientDataError guards + the 500-cycle gate of the excursion tests")
   ctx.expect("R-C12-CUSUM", 2, "two extrema")
   ctx.expect("R-C12-CONSIST", 5, "five shape obligations")
 
@@ -1404,3 +1405,56 @@ def rule_universal(ctx):
       okp = ratfun.equal_terms(as_poly(rets[0][1]), want)[0]
   ctx.record(R, f.where, "p = erfc(|f_n - expected| / sigma / sqrt 2)", okp, "f_n = sum / K with K = number of test blocks; (expected, sigma) = UniversalDistribution(L, K)" if okp else
              "the p-value is not erfc(|sum/K - expected| / sigma / sqrt(2))")
+
+
+# ------------------------------------------------------------------ GATE: random-excursion sub-tests need at least 500 cycles
+def rule_excursion_gate(ctx, R="R-C12-MINSIZE"):
+  """SP 800-22 2.14.7 / 3.14: the chi-square (and the normal approximation of the variant) are only valid for J >= max(0.005 sqrt(n), 500) cycles;
+  below 500 cycles truly random input yields p-values far below any fail level.  Every appended excursion p-value must be dominated by J >= c, c >= 500."""
+  repo = ctx.repo
+  f = repo.func(MOD, "RandomWalk")
+  w = sym.Walker(repo, f)
+  w.run()
+  probs = []
+  n_s = 0
+  seen = set()
+  for e in w.events:
+    if not (e.kind == "mutate" and e.data["method"] == "append" and e.data["args"] and isinstance(e.data["args"][0], Seq) and len(e.data["args"][0].items) == 2):
+      continue
+    lab = e.data["args"][0].items[0]
+    if "random excursions" not in repr(lab) or id(e.node) in seen:
+      continue
+    seen.add(id(e.node))
+    n_s += 1
+    pv = as_poly(e.data["args"][0].items[1])
+    lens = [a for a in pv.all_atoms() if a.kind == "len"]
+    if not lens:
+      probs.append("an excursion p-value does not depend on the number of cycles")
+      continue
+    J = Poly.atom(lens[0])
+    ok = False
+    for fc in e.facts:
+      if fc[0] != "cmp" or isinstance(fc[2], Seq) or isinstance(fc[3], Seq):
+        continue
+      x, y, op = as_poly(fc[2]), as_poly(fc[3]), fc[1]
+      if y == J and op in ("Lt", "LtE"):
+        x, y, op = y, x, {"Lt": "Gt", "LtE": "GtE"}[op]
+      if x != J or op not in ("Gt", "GtE"):
+        continue
+      lo = None
+      yi = y.as_int()
+      ya = y.as_atom()
+      if yi is not None:
+        lo = yi + (1 if op == "Gt" else 0)
+      elif ya is not None and ya.kind == "max":
+        cs = [as_poly(z).as_int() for z in ya.args if as_poly(z).as_int() is not None]
+        lo = max(cs) + (1 if op == "Gt" else 0) if cs else None
+      if lo is not None and lo >= 500:
+        ok = True
+    if not ok:
+      probs.append("an excursion p-value is reported without the guard J >= 500 (found: %s)" %
+                   ("; ".join("%s %r" % (fc[1], as_poly(fc[3])) for fc in e.facts if fc[0] == "cmp" and not isinstance(fc[2], Seq) and as_poly(fc[2]) == J)[:120] or "no comparison of J"))
+  if n_s < 2:
+    probs.append("excursion and variant sub-tests not both found")
+  ctx.record(R, f.where, "excursion sub-tests only with at least 500 cycles", not probs, "; ".join(sorted(set(probs))) or
+             "%d sub-test families: every p-value is appended under J >= c with c >= 500" % n_s)
